@@ -843,7 +843,10 @@ ol, ul { padding-left: 2em; }
                     familystyle[style] = val
                 styles = familystyle
             # Resolve the remaining parent styles
-            while '__parent-style-name' in styles and styles['__parent-style-name'] in self.styledict:
+            seen = set() # A style that is its own ancestor must not keep us here
+            while '__parent-style-name' in styles and styles['__parent-style-name'] in self.styledict \
+                    and styles['__parent-style-name'] not in seen:
+                seen.add(styles['__parent-style-name'])
                 parentstyle = self.styledict[styles['__parent-style-name']].copy()
                 del styles['__parent-style-name']
                 for style, val in styles.items():
